@@ -72,7 +72,7 @@ PROPS = {
         replay_family="c17",
         bounded=[dict(family="c17", what="supplementary end-to-end stand-in for what sits outside the extracted text (Display for Value, the to_string String equals the bytes written), and concrete witnesses: ill-formed UTF-8 inside strings, symbols, "
                                          "keywords and characters from byte-slice and stream sources is rejected (or returned as bytes); &str and byte-slice sources agree on multi-byte text",
-                      bound="9 ill-formed sequences x 9 contexts x 2 option sets x 2 sources; 28 multi-byte / escape texts x 2 option sets; 9 values x 3 printer option sets; every scalar below U+0300 (+36 across the range) as a hex escape from &str and printed as char/string/symbol x 2 option sets")],
+                      bound="14 ill-formed sequences x 17 contexts (incl. `?` / `?\\` / `#\\` / `#\\x` characters, quotes, vectors, string escapes) x 2 option sets x 2 sources and the one-shot entry points; 28 multi-byte / escape texts x 2 option sets; 9 values x 3 printer option sets; every scalar below U+0300 (+36 across the range) as a hex escape from &str and printed as char/string/symbol x 2 option sets")],
         explanation="PROVED (Verus, unbounded), input half: a `str` is built from input bytes in exactly two ways. (1) CHECKED - as_str (std::str::from_utf8): Ok only for "
                     "valid_utf8 bytes, an error otherwise; every scanner of the byte-slice and stream sources and the Emacs string scanner go through it. (2) UNCHECKED - "
                     "`unsafe str::from_utf8_unchecked` on the &str source's fast paths (symbols, R6RS strings): its safety precondition valid_utf8(bytes) is a `requires` of "
@@ -81,7 +81,8 @@ PROPS = {
                     "byte was consumed, and after decode_utf8_sequence consumed a complete, validated character; required by Read::parse_symbol / parse_r6rs_str and proved at "
                     "every call in parse_token / parse_list / parse_list_meta), stops at an ASCII terminator or quote, and what is copied into the scratch buffer is a "
                     "concatenation of such cuts, ASCII escape results and encode_utf8 of a char (parse_r6rs_escape keeps the scratch buffer well-formed and ends after an ASCII "
-                    "byte). The UTF-8 facts (a position not inside a character is a boundary and vice versa, cuts at such positions, well-formed prefixes and chunks, ASCII) "
+                    "byte). Character literals: parse_r6rs_char / parse_elisp_char (and the trait methods of all three sources) return a character for a first byte >= 0x80 "
+                    "only if the bytes consumed for it form a well-formed UTF-8 sequence (utf8_consumed) - a stray continuation byte can never become a character. The UTF-8 facts (a position not inside a character is a boundary and vice versa, cuts at such positions, well-formed prefixes and chunks, ASCII) "
                     "are proved from vstd::utf8's definitions, no axiom added. PROVED (Verus, unbounded), output half: to_string / to_string_custom call `unsafe String::from_utf8_unchecked(vec)`; "
                     "its safety precondition valid_utf8(vec) is a `requires` of the extracted helper and is discharged at both call sites from (a) to_vec's proved text equation "
                     "vec == txt_value(options, value) - every emitting function of print.rs is verified against its piece of that text - and (b) lemma_txt_value_valid: "
@@ -188,7 +189,7 @@ PROPS = {
                    claim="Parser::f64_from_parts (fast-float build), extracted from /repo with the POW10 table: for ALL (sign, significand: u64, exponent: i32) no panic "
                          "(table index in bounds, exponent arithmetic cannot overflow), the scaling loop ends within 7 rounds (unwinding assertion on: complete, the value "
                          "reaches 0.0 after two divisions by 1e308), and an Ok result is never infinite or NaN")],
-        bounded=[dict(family="c05", what="the ASSUMED part: f64_from_parts (floating-point scaling) gives the nearest double on the exact path and the documented accuracy elsewhere; integer boundaries in every radix", bound="185 cases: 24 decimal literals incl. subnormal/extreme/over-long, 9 boundary integers x 5 radix prefixes x 3 signs, 5 over-long integers, 8 integers just past the 64-bit range, 12 magnitudes no double can hold (decimal and #b/#o/#x)")],
+        bounded=[dict(family="c05", what="the ASSUMED part: f64_from_parts (floating-point scaling) gives the nearest double on the exact path and the documented accuracy elsewhere; integer boundaries in every radix", bound="about 250 cases per build: 50 decimal literals incl. subnormal/extreme/over-long, 9 boundary integers x 5 radix prefixes x 3 signs, 5 over-long integers, 8 integers just past the 64-bit range, 20 magnitudes no double can hold (decimal and #b/#o/#x), 9 significands x every written exponent -345..309 (every power-of-ten scale the conversion can be asked for, both exponent spellings) and 4 (quick) / 16 (thorough) x 400 random decimal literals of 1..24 digits, all compared with std's correctly rounded str::parse::<f64> (exact when the statement says exact - incl. the 19-digit clause in the build without fast-float-parsing - within 2^-50 otherwise, an error when no double can hold the value)")],
         explanation="The number scanner of parse/mod.rs (parse_num_literal, parse_long_integer, parse_num_tail, parse_decimal, parse_exponent, "
                     "parse_radix_literal) is extracted from /repo and verified against a declarative grammar (sp_num_literal / sp_num_tail / sp_decimal / "
                     "sp_exponent written from the C05 statement): digit runs of any length in radix 2/8/10/16, exact u64 value by induction over the digit "
@@ -240,7 +241,7 @@ PROPS = {
         level="proof",
         min_obligations=25,
         replay_family="c08",
-        bounded=[dict(family="c08", what="documented reading of each option-governed token in 4 syntactic positions, compared with a table written from the documentation", bound="54 (token, option set) pairs x 4 positions + 6 non-numeric digit-initial tokens with the option off")],
+        bounded=[dict(family="c08", what="documented reading of each option-governed token in 4 syntactic positions, compared with a table written from the documentation", bound="54 (token, option set) pairs x 4 positions x 3 entry points; a reference classifier written from the option documentation over ALL 1536 option sets x 35 tokens x 3 positions x 3 APIs (value, datum, stream); 6 non-numeric digit-initial tokens with the option off; each of the four quote shorthands 300 times in one list and 300 times from one parser (value and datum API, 2 option sets)")],
         explanation="parse_token - the only place parser options are consulted - is extracted from /repo and verified against a declarative classifier written from "
                     "the property statement, one clause per option: letter-initial words (postfix keywords, nil under NilSymbol, t under TSymbol, else symbol, with the "
                     "token text = the bytes up to the first symbol terminator, decoded as UTF-8), `:name` under ColonPrefix, `#:name` under Octothorpe (error when off), "
@@ -248,7 +249,11 @@ PROPS = {
                     "leading_digit_symbols, the quote shorthands ' ` , ,@ for every option set; each clause also pins how much input the token consumes. The Options "
                     "builder/query API is verified field by field (each with_* sets exactly its own field: `r == Options { f: v, ..self }`; keyword flags by bit-vector "
                     "reasoning), Options::new/default/elisp equal their documented field values. Non-interference follows where a clause pins the whole result: the clause "
-                    "mentions only the option it names.",
+                    "mentions only the option it names. The clauses are carried to next_value AND next_datum by `leaf_word` (an atom token yields the value of the "
+                    "option-determined token, in both APIs), together with tk_string (both string syntaxes, via sp_r6rs_str / sp_elisp_str), tk_char (`#\\` literals via "
+                    "sp_r6rs_char, plain Emacs `?c`), tk_radix / tk_decimal (sp_radix_literal / sp_num_literal); Parser::new / from_* pin Options::default(). The "
+                    "`always` of the quote-shorthand clause also rests on next_value / next_datum leaving options and nesting budget as they found them "
+                    "(same_cfg on every exit: counted for C08 too).",
         assumptions=[
             "String::ends_with(':'), String::pop, String == &str are std: assumed specs over the char sequence (vx_ends_with_colon, vx_string_pop, vx_string_eq)",
             "char::is_alphabetic is an uninterpreted predicate",
